@@ -664,7 +664,21 @@ func (e *symEnv) eval(st *symState, x ast.Expr) Val {
 	case *ast.BinaryExpr:
 		switch x.Op {
 		case token.LAND, token.LOR:
-			a, b := e.eval(st, x.X), e.eval(st, x.Y)
+			a := e.eval(st, x.X)
+			// the right operand is only evaluated when the left one has (&&) or has not (||)
+			// held: what it reads, it reads under that condition
+			saved := len(st.cube)
+			if a.B != nil {
+				guard := a.B
+				if x.Op == token.LOR {
+					guard = fNotOf(a.B)
+				}
+				if cubes := dnf(guard); len(cubes) == 1 {
+					st.cube = append(st.cube, cubes[0]...)
+				}
+			}
+			b := e.eval(st, x.Y)
+			st.cube = st.cube[:saved]
 			if a.B != nil && b.B != nil {
 				if x.Op == token.LAND {
 					return Val{B: fAndOf(a.B, b.B)}
